@@ -4,41 +4,53 @@ import AsynqModel.Proofs.Threads
 # C16  Computations on different threads never interfere
 
 The model (`AsynqModel.Threads`, Lib/Threads.lean) is ONE global state for all threads - the thread-indexed carriers
-(`locals`), the one process-wide deduplicate dict whose keys carry a thread component (`tasks`), and objects that are
-shared by design (`sh`: a scoped value, an alru cache) - and ONE global step `gStep kg perf t op`.  How a thread
-addresses the carriers and what it puts into a deduplicate key is the parameter `kg : Keying`.
+(`locals`), the one process-wide deduplicate dict whose keys carry a thread component (`tasks`), and objects that the
+program shares between threads (`sh`: a scoped value, an alru cache) - and ONE global step `gStep kg perf t op`.  How a
+thread addresses the carriers and what it puts into a deduplicate key is the parameter `kg : Keying`; the state the
+threads start from is the parameter `g₀` of every run.
 
 What is proved:
-* the SHARING STRUCTURE of `gStep`: for an operation that touches no shared-by-design object, the step of thread `t`
-  commutes with the abstraction `abs kg t` to `t`'s view (`C16_gstep_simulates_local`, any keying), and if the keying
-  separates the threads it leaves the view of every other thread unchanged (`C16_gstep_frames_others`, ALL operations);
-* from these two facts and nothing else: non-interference under EVERY schedule for fixed operation lists
-  (`C16_noninterference`, `C16_noninterference_prefix`) and for ADAPTIVE computations - the next operation is an
-  arbitrary function of what the thread itself has observed so far, so results, context events and flush choices are
-  not assumed equal between runs (`C16_adaptive_noninterference`, `C16_adaptive_schedule_independent`);
-* that the separation is NECESSARY: with the thread missing from the deduplicate key, or with thread-local holders
-  turned into module state, non-interference is refuted (`C16_no_thread_in_key_counterexample`,
-  `C16_module_state_counterexample`) - so the theorems above are about this model's keying, not about any step function;
-* the restriction to computations that do not touch shared-by-design objects is necessary
-  (`C16_shared_object_counterexample`) and concerns only the thread's OWN operations: other threads may use them freely;
-* the Boolean observer `spec` that the check evaluates on the records of the real implementation accepts every run
-  of the model (`C16_spec_holds`).
+* the SHARING STRUCTURE of `gStep`: for an operation that touches no shared object, the step of thread `t` commutes with
+  the abstraction `abs kg t` to `t`'s view (`C16_gstep_simulates_local`, any keying), and if the keying separates the
+  threads it leaves the view of every other thread unchanged (`C16_gstep_frames_others`, ALL operations);
+* from these two facts: non-interference under EVERY schedule from EVERY start state, for fixed operation lists
+  (`C16_noninterference`) and for ADAPTIVE computations (`C16_adaptive_noninterference`), for a thread whose own
+  operations touch no shared object;
+* WITHOUT any hypothesis on the thread's operations: all its records on scheduler / tasks / batches / profiler /
+  deduplicate / asyncio mode equal those of its run alone, also after and between its uses of shared objects - under
+  COLLECT_PERF_STATS up to its first cached call (`C16_noninterference_strict`; the cut is needed:
+  `C16_strict_cut_counterexample`);
+* the separation is NECESSARY (`C16_no_thread_in_key_counterexample`, `C16_module_state_counterexample`);
+* the library as written keeps threads apart only if no two threads that were NOT created through `threading.Thread`
+  had the same OS thread ident (`C16_cpython_noninterference_partial`); two such threads that follow each other on one
+  ident share a deduplication scope (`C16_alien_ident_counterexample`) - a defect of the code (tools.py:349-350);
+* a thread that reads a scoped value / calls a cached function that another thread uses too does NOT get the records of
+  running alone (`C16_shared_object_counterexample`) - the property as stated is false of such programs and the
+  observer reports them (`interference:shared-object`);
+* the asyncio-mode flag a thread STARTS with (copied context: `asyncio.to_thread`, `Thread(target=ctx.run)`) is an input
+  of its computation, not interference: all theorems hold from every start state, and the records do depend on it
+  (`C16_inherited_mode_counterexample`);
+* the Boolean observer `spec` that the check evaluates on the records of the real implementation: the model passes
+  every clause except the last for ALL schedules (`C16_spec_own_holds`), passes the whole of it when no thread uses a
+  shared object (`C16_spec_holds_partial`), and can fail it with the last clause only (`C16_spec_fails_only_on_shared_objects`).
 
 What is NOT proved (a theorem does not exhibit OS interleavings or read Python): that the Python functions behave
-like `gStep Keying.real`.  That is tied to the code by the check's lock-step histories (every observation compared
-with the model under the same schedule), write-in-A/observe-in-B probes, repeated free-running concurrent runs and
-the AST inventory.
+like `gStep (Keying.cpython aliens)`.  That is tied to the code by the check's lock-step histories (every observation
+compared with the model under the same schedule), write-in-A/observe-in-B probes, repeated free-running concurrent
+runs and the AST inventory.
 -/
 namespace AsynqModel.Threads
 
 /-! ## the sharing structure of the global step -/
 
-/-- the library's keying separates the threads (CPython: one threading.local slot per thread, distinct Thread objects) -/
-theorem C16_real_separates : Keying.real.Separates := ⟨fun _ _ h => h, fun _ _ h => h⟩
+/-- the library's keying separates threads created through `threading.Thread` (CPython: one threading.local slot per
+    thread, distinct Thread objects).  Holds by construction of `Keying.real`; the content is the correspondence. -/
+theorem C16_real_separates : Keying.real.Separates :=
+  ⟨fun _ _ h => h, fun _ _ h => Nat.eq_of_mul_eq_mul_left (by decide : 0 < 2) h⟩
 
-/-- **simulation** (any keying, any global state): an operation of thread `t` that touches no shared-by-design object
-    observes what `localStep` observes on `t`'s view (its carriers and its slice of the one deduplicate dict) and
-    changes `t`'s view like `localStep` - it reads nothing else of the global state -/
+/-- **simulation** (any keying, any global state): an operation of thread `t` that touches no shared object observes
+    what `localStep` observes on `t`'s view (its carriers and its slice of the one deduplicate dict) and changes `t`'s
+    view like `localStep` - it reads nothing else of the global state -/
 theorem C16_gstep_simulates_local (kg : Keying) (perf : Bool) (t : ThreadId) (op : Op) (g : GState)
     (h : op.isShared = false) :
     localStep perf (abs kg t g) op = (abs kg t (gStep kg perf t op g).1, (gStep kg perf t op g).2) :=
@@ -52,8 +64,9 @@ theorem C16_gstep_frames_others (kg : Keying) (hs : kg.Separates) (perf : Bool) 
   gStep_frame kg hs perf t u op g h
 
 /-- a thread never observes another thread's activity: in two ARBITRARY global states in which thread `t` has the same
-    view, the next operation of `t` observes the same and leaves `t` with the same view - whatever tasks, batches,
-    active task, profiler entries, deduplicate entries, asyncio mode the other threads have in the two states -/
+    view, the next operation of `t` - if it is not on a shared object - observes the same and leaves `t` with the same
+    view, whatever tasks, batches, active task, profiler entries, deduplicate entries, asyncio mode the other threads
+    have in the two states -/
 theorem C16_never_observes_others (kg : Keying) (perf : Bool) (t : ThreadId) (op : Op) (g₁ g₂ : GState)
     (hop : op.isShared = false) (h : abs kg t g₁ = abs kg t g₂) :
     (gStep kg perf t op g₁).2 = (gStep kg perf t op g₂).2 ∧
@@ -64,100 +77,128 @@ theorem C16_never_observes_others (kg : Keying) (perf : Bool) (t : ThreadId) (op
   have := a.symm.trans b
   exact ⟨(Prod.mk.inj this).2, (Prod.mk.inj this).1⟩
 
+/-- `hop` is needed (and so is `h` of `C16_gstep_simulates_local`): equal views, different scoped value -/
+example : abs Keying.real 0 GState.init = abs Keying.real 0 { GState.init with sh := { sv := 5, lru := [] } } ∧
+    (gStep Keying.real false 0 .svGet GState.init).2 ≠
+      (gStep Keying.real false 0 .svGet { GState.init with sh := { sv := 5, lru := [] } }).2 ∧
+    localStep false (abs Keying.real 0 { GState.init with sh := { sv := 5, lru := [] } }) .svGet ≠
+      (abs Keying.real 0 (gStep Keying.real false 0 .svGet { GState.init with sh := { sv := 5, lru := [] } }).1,
+       (gStep Keying.real false 0 .svGet { GState.init with sh := { sv := 5, lru := [] } }).2) := by decide
+/-- `u ≠ t` of the frame theorem is needed: a thread's own step does change its own view -/
+example : abs Keying.real 0 (gStep Keying.real false 0 (.taskStart 5) GState.init).1 ≠ abs Keying.real 0 GState.init := by
+  decide
+
 theorem abs_init (kg : Keying) (t : ThreadId) : abs kg t GState.init = Local.init := rfl
 
 /-! ## non-interference, fixed operation lists -/
 
-/-- **C16, all schedules**: the keying separates the threads; `sch` is ANY schedule of ANY operations of ANY number of
-    threads (the other threads may also use shared-by-design objects); thread `t`'s own operations touch no
-    shared-by-design object.  Then `t` ends with the view, and has made exactly the records, of the run in which only
-    `t` acts (`only t sch`) - which are those of the reference semantics `localStep` from the initial state. -/
-theorem C16_noninterference (kg : Keying) (hs : kg.Separates) (perf : Bool) (sch : List (ThreadId × Op)) (t : ThreadId)
-    (hown : ∀ op ∈ opsOf t sch, op.isShared = false) :
-    (abs kg t (gRun kg perf sch).1 = abs kg t (gRun kg perf (only t sch)).1 ∧
-     proj t (gRun kg perf sch).2 = proj t (gRun kg perf (only t sch)).2) ∧
-    (abs kg t (gRun kg perf sch).1 = (runAlone (localStep perf) Local.init (opsOf t sch)).1 ∧
-     proj t (gRun kg perf sch).2 = alone perf (opsOf t sch)) := by
+/-- **C16, all schedules, all start states**: the keying separates the threads; `g₀` is ANY process state (threads may
+    have been started with copied contexts, may have used asynq before); `sch` is ANY schedule of ANY operations of ANY
+    number of threads (the other threads may also use shared objects); thread `t`'s own operations touch no shared
+    object.  Then `t` ends with the view, and has made exactly the records, of the run from `g₀` in which only `t` acts
+    (`only t sch`) - which are those of the reference semantics `localStep` on `t`'s view of `g₀`. -/
+theorem C16_noninterference (kg : Keying) (hs : kg.Separates) (perf : Bool) (g₀ : GState) (sch : List (ThreadId × Op))
+    (t : ThreadId) (hown : ∀ op ∈ opsOf t sch, op.isShared = false) :
+    (abs kg t (gRunFrom kg perf g₀ sch).1 = abs kg t (gRunFrom kg perf g₀ (only t sch)).1 ∧
+     proj t (gRunFrom kg perf g₀ sch).2 = proj t (gRunFrom kg perf g₀ (only t sch)).2) ∧
+    (abs kg t (gRunFrom kg perf g₀ sch).1 = (runAlone (localStep perf) (abs kg t g₀) (opsOf t sch)).1 ∧
+     proj t (gRunFrom kg perf g₀ sch).2 = (runAlone (localStep perf) (abs kg t g₀) (opsOf t sch)).2) := by
   have hc : ∀ t op g, (!op.isShared) = true →
       localStep perf (abs kg t g) op = (abs kg t (gStep kg perf t op g).1, (gStep kg perf t op g).2) :=
     fun t op g h => gStep_commutes kg perf t op g (by simpa using h)
   have hf := fun t u op g => gStep_frame kg hs perf t u op g
-  have a := sim_run (gStep kg perf) (localStep perf) (abs kg) (fun op => !op.isShared) hc hf sch GState.init t
+  have a := sim_run (gStep kg perf) (localStep perf) (abs kg) (fun op => !op.isShared) hc hf sch g₀ t
     (fun op ho => by simp [hown op ho])
-  have b := sim_run (gStep kg perf) (localStep perf) (abs kg) (fun op => !op.isShared) hc hf (only t sch) GState.init t
+  have b := sim_run (gStep kg perf) (localStep perf) (abs kg) (fun op => !op.isShared) hc hf (only t sch) g₀ t
     (fun op ho => by rw [opsOf_only] at ho; simp [hown op ho])
   rw [opsOf_only] at b
   exact ⟨⟨a.1.trans b.1.symm, a.2.trans b.2.symm⟩, a⟩
 
-/-- without any assumption on `t`'s operations: up to its first operation on a shared-by-design object the records of
-    thread `t` are those of the run in which only `t` acts -/
-theorem C16_noninterference_prefix (kg : Keying) (hs : kg.Separates) (perf : Bool) (sch : List (ThreadId × Op))
-    (t : ThreadId) :
-    ownPrefix (proj t (gRun kg perf sch).2) = ownPrefix (proj t (gRun kg perf (only t sch)).2) := by
-  have hc : ∀ t op g, (!op.isShared) = true →
-      localStep perf (abs kg t g) op = (abs kg t (gStep kg perf t op g).1, (gStep kg perf t op g).2) :=
-    fun t op g h => gStep_commutes kg perf t op g (by simpa using h)
-  have hf := fun t u op g => gStep_frame kg hs perf t u op g
-  have a := sim_run_prefix (gStep kg perf) (localStep perf) (abs kg) (fun op => !op.isShared) hc hf sch GState.init t
-  have b := sim_run_prefix (gStep kg perf) (localStep perf) (abs kg) (fun op => !op.isShared) hc hf (only t sch)
-    GState.init t
-  rw [opsOf_only] at b
-  exact a.trans b.symm
+/-- **no hypothesis on `t`'s operations**: thread `t` performs the operations the schedule gives it, and ALL its records
+    that are not themselves operations on a shared object - scheduler, active task, tasks, debug batches, profiler,
+    deduplicate, asyncio mode, trace; also those AFTER and BETWEEN its uses of shared objects - are those of the run in
+    which only `t` acts.  Under COLLECT_PERF_STATS this holds up to `t`'s first call of a cached function (`cut`). -/
+theorem C16_noninterference_strict (kg : Keying) (hs : kg.Separates) (perf : Bool) (g₀ : GState)
+    (sch : List (ThreadId × Op)) (t : ThreadId) :
+    (proj t (gRunFrom kg perf g₀ sch).2).map (·.1) = (proj t (gRunFrom kg perf g₀ (only t sch)).2).map (·.1) ∧
+    strictPart perf (proj t (gRunFrom kg perf g₀ sch).2) = strictPart perf (proj t (gRunFrom kg perf g₀ (only t sch)).2) := by
+  constructor
+  · simp only [gRunFrom, runGlobal_ops, opsOf_only]
+  · have a := sim_strict kg hs perf sch g₀ t
+    have b := sim_strict kg hs perf (only t sch) g₀ t
+    rw [opsOf_only] at b
+    exact a.trans b.symm
+
+/-- thread 1 calls the cached function (a hit or a miss depending on thread 0), then creates a task -/
+def cutClash : List (ThreadId × Op) := [(0, .lruCall 3), (1, .lruCall 3), (1, .newTask)]
+
+/-- the cut of `strictPart` under COLLECT_PERF_STATS is needed: after its first cached call the profiler ids of the
+    thread's OWN tasks depend on whether another thread had filled the cache (hit: one id taken, miss: two) - without
+    profiling they do not -/
+theorem C16_strict_cut_counterexample :
+    priv (proj 1 (inter true cutClash)) = [(.newTask, .task 0 2)] ∧
+    priv (proj 1 (inter true (only 1 cutClash))) = [(.newTask, .task 0 3)] ∧
+    priv (proj 1 (inter false cutClash)) = priv (proj 1 (inter false (only 1 cutClash))) := by
+  decide
 
 /-- the outcome of a thread depends neither on the schedule nor on what the other threads do: two ARBITRARY schedules
     (different threads, different operations of the others) in which `t` itself performs the same operations, none of
-    them on a shared-by-design object, give `t` the same view and the same records -/
-theorem C16_schedule_independent (kg : Keying) (hs : kg.Separates) (perf : Bool)
+    them on a shared object, give `t` the same view and the same records -/
+theorem C16_schedule_independent (kg : Keying) (hs : kg.Separates) (perf : Bool) (g₀ : GState)
     (sch₁ sch₂ : List (ThreadId × Op)) (t : ThreadId) (h : opsOf t sch₁ = opsOf t sch₂)
     (hown : ∀ op ∈ opsOf t sch₁, op.isShared = false) :
-    abs kg t (gRun kg perf sch₁).1 = abs kg t (gRun kg perf sch₂).1 ∧
-    proj t (gRun kg perf sch₁).2 = proj t (gRun kg perf sch₂).2 := by
-  have a := (C16_noninterference kg hs perf sch₁ t hown).2
-  have b := (C16_noninterference kg hs perf sch₂ t (h ▸ hown)).2
+    abs kg t (gRunFrom kg perf g₀ sch₁).1 = abs kg t (gRunFrom kg perf g₀ sch₂).1 ∧
+    proj t (gRunFrom kg perf g₀ sch₁).2 = proj t (gRunFrom kg perf g₀ sch₂).2 := by
+  have a := (C16_noninterference kg hs perf g₀ sch₁ t hown).2
+  have b := (C16_noninterference kg hs perf g₀ sch₂ t (h ▸ hown)).2
   rw [← h] at b
   exact ⟨a.1.trans b.1.symm, a.2.trans b.2.symm⟩
 
-/-- the statement for the library as written, in the functions the driver of the check evaluates (`inter` = the model's
-    concurrent run, `aloneOn` = the model's run of one thread while the others do nothing, `alone` = the reference
-    semantics): CORR compares the implementation with `inter` / `aloneOn`, and these agree per thread -/
+/-- `h` is needed (obviously): a thread that does something else records something else -/
+example : opsOf 0 [((0 : ThreadId), Op.getActive)] ≠ opsOf 0 [((0 : ThreadId), Op.snap)] ∧
+    proj 0 (inter false [(0, .getActive)]) ≠ proj 0 (inter false [(0, .snap)]) := by decide
+
+/-- the statement for the library as written (`threading.Thread` threads, fresh contexts), in the functions the examples
+    below evaluate (`inter` = the model's concurrent run, `aloneOn` = the model's run of one thread while the others do
+    nothing, `alone` = the reference semantics).  An instance of `C16_noninterference`, nothing more. -/
 theorem C16_noninterference_library (perf : Bool) (sch : List (ThreadId × Op)) (t : ThreadId)
     (hown : ∀ op ∈ opsOf t sch, op.isShared = false) :
     proj t (inter perf sch) = aloneOn perf t (opsOf t sch) ∧ aloneOn perf t (opsOf t sch) = alone perf (opsOf t sch) := by
-  have a := C16_noninterference Keying.real C16_real_separates perf sch t hown
+  have a := C16_noninterference Keying.real C16_real_separates perf GState.init sch t hown
   exact ⟨a.1.2, a.1.2.symm.trans a.2.2⟩
 
 /-! ## non-interference, adaptive computations -/
 
-/-- a computation that never touches a shared-by-design object -/
+/-- a computation that never touches a shared object -/
 def Strategy.Own (s : Strategy) : Prop := ∀ h op, s h = some op → op.isShared = false
 
 /-- **C16 for arbitrary computations**: every thread `u` runs an ARBITRARY computation `ss u` (its next operation is any
     function of the records it has made so far - so its results, its context events, the batch its scheduler flushes
     next are not inputs that two runs are assumed to share); `turns` is ANY list saying which thread moves at each
-    instant.  If the keying separates the threads and `t`'s computation never touches a shared-by-design object, then
-    the records of `t` (operations AND observations) and its final view are those of `t`'s computation run alone for
-    as many turns as `t` got. -/
-theorem C16_adaptive_noninterference (kg : Keying) (hs : kg.Separates) (perf : Bool) (ss : ThreadId → Strategy)
-    (t : ThreadId) (hown : (ss t).Own) (turns : List ThreadId) :
-    abs kg t (stratGlobal (gStep kg perf) ss turns GState.init []).1 =
-      (stratAlone (localStep perf) (ss t) (turns.count t) Local.init []).1 ∧
-    proj t (stratGlobal (gStep kg perf) ss turns GState.init []).2 =
-      (stratAlone (localStep perf) (ss t) (turns.count t) Local.init []).2 := by
+    instant; `g₀` is ANY start state.  If the keying separates the threads and `t`'s computation never touches a shared
+    object, then the records of `t` (operations AND observations) and its final view are those of `t`'s computation
+    run alone on its view of `g₀` for as many turns as `t` got. -/
+theorem C16_adaptive_noninterference (kg : Keying) (hs : kg.Separates) (perf : Bool) (g₀ : GState)
+    (ss : ThreadId → Strategy) (t : ThreadId) (hown : (ss t).Own) (turns : List ThreadId) :
+    abs kg t (stratGlobal (gStep kg perf) ss turns g₀ []).1 =
+      (stratAlone (localStep perf) (ss t) (turns.count t) (abs kg t g₀) []).1 ∧
+    proj t (stratGlobal (gStep kg perf) ss turns g₀ []).2 =
+      (stratAlone (localStep perf) (ss t) (turns.count t) (abs kg t g₀) []).2 := by
   have hc : ∀ t op g, (!op.isShared) = true →
       localStep perf (abs kg t g) op = (abs kg t (gStep kg perf t op g).1, (gStep kg perf t op g).2) :=
     fun t op g h => gStep_commutes kg perf t op g (by simpa using h)
   have hf := fun t u op g => gStep_frame kg hs perf t u op g
   exact sim_strat (gStep kg perf) (localStep perf) (abs kg) (fun op => !op.isShared) hc hf ss t
-    (fun h op e => by simp [hown h op e]) turns GState.init []
+    (fun h op e => by simp [hown h op e]) turns g₀ []
 
 /-- ... in particular they depend neither on WHEN `t` got its turns nor on what the other threads compute -/
-theorem C16_adaptive_schedule_independent (kg : Keying) (hs : kg.Separates) (perf : Bool) (ss ss' : ThreadId → Strategy)
-    (t : ThreadId) (hsame : ss t = ss' t) (hown : (ss t).Own) (turns turns' : List ThreadId)
+theorem C16_adaptive_schedule_independent (kg : Keying) (hs : kg.Separates) (perf : Bool) (g₀ : GState)
+    (ss ss' : ThreadId → Strategy) (t : ThreadId) (hsame : ss t = ss' t) (hown : (ss t).Own) (turns turns' : List ThreadId)
     (hcount : turns.count t = turns'.count t) :
-    proj t (stratGlobal (gStep kg perf) ss turns GState.init []).2 =
-    proj t (stratGlobal (gStep kg perf) ss' turns' GState.init []).2 := by
-  have a := (C16_adaptive_noninterference kg hs perf ss t hown turns).2
-  have b := (C16_adaptive_noninterference kg hs perf ss' t (hsame ▸ hown) turns').2
+    proj t (stratGlobal (gStep kg perf) ss turns g₀ []).2 =
+    proj t (stratGlobal (gStep kg perf) ss' turns' g₀ []).2 := by
+  have a := (C16_adaptive_noninterference kg hs perf g₀ ss t hown turns).2
+  have b := (C16_adaptive_noninterference kg hs perf g₀ ss' t (hsame ▸ hown) turns').2
   rw [← hsame, ← hcount] at b
   exact a.trans b.symm
 
@@ -194,19 +235,79 @@ example : proj 1 (gRun Keying.real false dedupClash).2 = proj 1 (gRun Keying.rea
     proj 1 (gRun Keying.real false holderClash).2 = proj 1 (gRun Keying.real false (only 1 holderClash)).2 := by
   decide
 
-/-! ## objects shared by design are outside the statement: the hypothesis on `t`'s own operations is necessary -/
+/-! ## threads that were not created through `threading.Thread`: the deduplication scope belongs to the OS thread ident -/
+
+/-- **the library as written, any mix of `threading.Thread` threads and others**: if no two threads of the second kind
+    had the same OS thread ident (decidable: `identsDistinct`), every thread whose own operations touch no shared object
+    ends with the view and the records of running alone - from every start state, under every schedule -/
+theorem C16_cpython_noninterference_partial (aliens : List (ThreadId × Nat)) (hid : identsDistinct aliens = true)
+    (perf : Bool) (g₀ : GState) (sch : List (ThreadId × Op)) (t : ThreadId)
+    (hown : ∀ op ∈ opsOf t sch, op.isShared = false) :
+    proj t (gRunFrom (Keying.cpython aliens) perf g₀ sch).2 = proj t (gRunFrom (Keying.cpython aliens) perf g₀ (only t sch)).2 ∧
+    proj t (gRunFrom (Keying.cpython aliens) perf g₀ sch).2 =
+      (runAlone (localStep perf) (abs (Keying.cpython aliens) t g₀) (opsOf t sch)).2 := by
+  have a := C16_noninterference (Keying.cpython aliens) (cpython_separates aliens hid) perf g₀ sch t hown
+  exact ⟨a.1.2, a.2.2⟩
+
+/-- thread 0 leaves an un-awaited deduplicated task behind and ENDS; thread 1 lives afterwards (all of thread 0's
+    operations come first) and asks for the same function and key -/
+def lifeClash : List (ThreadId × Op) := [(0, .dedupCall 0 7), (0, .getActive), (1, .dedupCall 0 7)]
+
+/-- **defect of the code as written** (tools.py:349-350 keys on `threading.current_thread()`): threads 0 and 1 were
+    started with `_thread.start_new_thread` (or by a C extension) and thread 1 got the OS thread ident that thread 0
+    gave back: CPython <= 3.12 answers `current_thread()` with the SAME cached `_DummyThread`, the two threads have one
+    deduplication scope, and thread 1 is handed the dead thread's task (`dedup 1 0 _` = "the stored task") where alone
+    it creates its own.  The keying does not separate them; with distinct idents, or with `threading.Thread` threads
+    on the same ident, the run is harmless. -/
+theorem C16_alien_ident_counterexample :
+    identsDistinct [(0, 77), (1, 77)] = false ∧
+    (∀ op ∈ opsOf 1 lifeClash, op.isShared = false) ∧
+    proj 1 (interW [(0, 77), (1, 77)] [] false lifeClash) = [(.dedupCall 0 7, .dedup 1 0 0)] ∧
+    proj 1 (interW [(0, 77), (1, 77)] [] false (only 1 lifeClash)) = [(.dedupCall 0 7, .dedup 0 0 0)] ∧
+    proj 1 (interW [(0, 77), (1, 78)] [] false lifeClash) = proj 1 (interW [(0, 77), (1, 78)] [] false (only 1 lifeClash)) ∧
+    proj 1 (interW [] [] false lifeClash) = proj 1 (interW [] [] false (only 1 lifeClash)) := by
+  decide
+
+/-- `Keying.cpython []` is `Keying.real`; `GState.start []` is `GState.init` -/
+example : Keying.cpython [] = Keying.real ∧ GState.start [] = GState.init := ⟨rfl, rfl⟩
+example (perf : Bool) (sch : List (ThreadId × Op)) : interW [] [] perf sch = inter perf sch := rfl
+
+/-! ## objects the program shares between threads: the hypothesis on `t`'s own operations is necessary -/
 
 /-- thread 0 is inside `with V.override(5)`, thread 1 reads `V`; thread 0 fills the alru cache, thread 1 calls -/
 def sharedClash : List (ThreadId × Op) := [(0, .svEnter 5), (1, .svGet), (0, .svExit), (0, .lruCall 3), (1, .lruCall 3)]
 
-/-- the library as written (`Keying.real`): a thread that reads a scoped value / calls a cached function that another
-    thread uses too does NOT get the records of running alone (5 instead of 0; a cache hit instead of a miss) - while
-    a thread that does not touch such objects is unaffected by the two that do (`getActive`, `mkItem` of thread 2) -/
+/-- **the property as stated is false of the code for programs that share such objects**: the library as written
+    (`Keying.real`): a thread that reads a scoped value / calls a cached function that another thread uses too does NOT
+    get the records of running alone (5 instead of 0; a cache hit instead of a miss) - the observer reports it with the
+    clause `interference:shared-object` - while a thread that does not touch such objects is unaffected by the two that
+    do (`getActive`, `mkItem` of thread 2) -/
 theorem C16_shared_object_counterexample :
     proj 1 (inter false sharedClash) = [(.svGet, .nat 5), (.lruCall 3, .cache true 31)] ∧
     proj 1 (inter false (only 1 sharedClash)) = [(.svGet, .nat 0), (.lruCall 3, .cache false 31)] ∧
     proj 2 (inter false (sharedClash ++ [(2, .getActive), (2, .mkItem 1 9)])) =
-      proj 2 (inter false [(2, .getActive), (2, .mkItem 1 9)]) := by
+      proj 2 (inter false [(2, .getActive), (2, .mkItem 1 9)]) ∧
+    specClause false 2 [aloneOn false 0 (opsOf 0 sharedClash), aloneOn false 1 (opsOf 1 sharedClash)]
+      (inter false sharedClash) = "interference:shared-object" := by
+  decide
+
+/-! ## the context a thread starts with is an input of its computation -/
+
+/-- what a legacy synchronous worker does: looks at the mode, calls a deduplicated function, a cached function, makes a task -/
+def workerOps : List Op := [.amGet, .dedupCall 0 7, .lruCall 3, .newTask]
+
+/-- a thread started with a COPY of its creator's context (`asyncio.to_thread(f)` from inside `fn.asyncio()`,
+    `Thread(target=copy_context().run)`) begins in the creator's asyncio mode: the same operations give other records
+    than in a thread with a fresh context (a coroutine instead of a task, RuntimeError from the synchronous call).  This
+    is NOT interference: the start state is the parameter `g₀` of every theorem above, and from either start state the
+    thread's records are independent of the other threads (here: thread 0 enters and leaves asyncio mode meanwhile). -/
+theorem C16_inherited_mode_counterexample :
+    aloneW [] [(1, true)] false 1 workerOps =
+      [(.amGet, .bool true), (.dedupCall 0 7, .bypass), (.lruCall 3, .raised 1), (.newTask, .bypass)] ∧
+    aloneW [] [] false 1 workerOps =
+      [(.amGet, .bool false), (.dedupCall 0 7, .dedup 0 0 0), (.lruCall 3, .cache false 31), (.newTask, .task 1 0)] ∧
+    proj 1 (interW [] [(1, true)] false ([(0, .amEnter), (1, .amGet), (0, .amExit), (0, .dedupCall 0 7)] ++
+      (workerOps.drop 1).map fun op => (1, op))) = aloneW [] [(1, true)] false 1 workerOps := by
   decide
 
 /-! ## the observer -/
@@ -232,33 +333,35 @@ theorem foreignIn_none (l : List Rec) (h : ∀ r ∈ l, r.2 ≠ Obs.foreign) : f
   intro r hr
   simpa using h r hr
 
-/-- **C16 as the observer `spec`** - the same Boolean function the check evaluates on the records of the real
-    implementation: for any separating keying (in particular the library's), any `k ≥ 1`, any schedule of threads
-    `< k` (any operations), the model's concurrent run is accepted against the model's runs of each thread alone -/
-theorem C16_spec_holds (kg : Keying) (hs : kg.Separates) (perf : Bool) (k : Nat) (hk : 0 < k)
+/-- **C16 as the observer, every clause but the last** - the same Boolean function the check evaluates on the records of
+    the real implementation: for any separating keying (in particular the library's), any start state, any `k ≥ 1`, any
+    schedule of threads `< k` performing ANY operations (also on shared objects), the model's concurrent run passes
+    `specOwn` against the model's runs of each thread alone: no foreign object, the same operations, and all records
+    that no shared object can influence equal -/
+theorem C16_spec_own_holds (kg : Keying) (hs : kg.Separates) (perf : Bool) (g₀ : GState) (k : Nat) (hk : 0 < k)
     (sch : List (ThreadId × Op)) (hthr : ∀ p ∈ sch, p.1 < k) :
-    spec k ((List.range k).map fun t => proj t (gRun kg perf (only t sch)).2) (gRun kg perf sch).2 = true := by
-  have hforeign : ∀ s : List (ThreadId × Op), ∀ r ∈ (gRun kg perf s).2, r.2.2 ≠ Obs.foreign :=
+    specOwn perf k ((List.range k).map fun t => proj t (gRunFrom kg perf g₀ (only t sch)).2) (gRunFrom kg perf g₀ sch).2 = true := by
+  have hforeign : ∀ s : List (ThreadId × Op), ∀ r ∈ (gRunFrom kg perf g₀ s).2, r.2.2 ≠ Obs.foreign :=
     fun s => runGlobal_obs (gStep kg perf) (· ≠ Obs.foreign) (fun t op g => gStep_obs_ne_foreign kg perf t op g)
-      GState.init s
+      g₀ s
   have h1 : ¬ (k = 0) := Nat.pos_iff_ne_zero.mp hk
-  have h2 : ¬ (((List.range k).map fun t => proj t (gRun kg perf (only t sch)).2).length ≠ k) := by simp
-  have h3 : ((gRun kg perf sch).2.any fun p => decide (k ≤ p.1)) = false := by
+  have h2 : ¬ (((List.range k).map fun t => proj t (gRunFrom kg perf g₀ (only t sch)).2).length ≠ k) := by simp
+  have h3 : ((gRunFrom kg perf g₀ sch).2.any fun p => decide (k ≤ p.1)) = false := by
     rw [List.any_eq_false]
     intro p hp
-    have : p.1 ∈ (gRun kg perf sch).2.map (·.1) := List.mem_map_of_mem hp
-    rw [gRun, runGlobal_threads] at this
+    have : p.1 ∈ (gRunFrom kg perf g₀ sch).2.map (·.1) := List.mem_map_of_mem hp
+    rw [gRunFrom, runGlobal_threads] at this
     obtain ⟨q, hq, he⟩ := List.mem_map.mp this
     have hlt : q.1 < k := hthr q hq
     have heq : q.1 = p.1 := he
     simp only [decide_eq_true_eq]
     exact Nat.not_le_of_gt (heq ▸ hlt)
-  have h4 : foreignIn ((gRun kg perf sch).2.map (·.2)) = none := by
+  have h4 : foreignIn ((gRunFrom kg perf g₀ sch).2.map (·.2)) = none := by
     apply foreignIn_none
     intro r hr
     obtain ⟨p, hp, he⟩ := List.mem_map.mp hr
     exact he ▸ hforeign sch p hp
-  have h5 : ((List.range k).map fun t => proj t (gRun kg perf (only t sch)).2).findSome? foreignIn = none := by
+  have h5 : ((List.range k).map fun t => proj t (gRunFrom kg perf g₀ (only t sch)).2).findSome? foreignIn = none := by
     rw [List.findSome?_eq_none_iff]
     intro l hl
     obtain ⟨t, _, he⟩ := List.mem_map.mp hl
@@ -267,29 +370,81 @@ theorem C16_spec_holds (kg : Keying) (hs : kg.Separates) (perf : Bool) (k : Nat)
     intro r hr
     exact hforeign _ _ (proj_mem t _ r hr)
   have key : ∀ n, n ≤ k →
-      specFind ((List.range k).map fun t => proj t (gRun kg perf (only t sch)).2) (gRun kg perf sch).2 n = none := by
+      specFind perf ((List.range k).map fun t => proj t (gRunFrom kg perf g₀ (only t sch)).2) (gRunFrom kg perf g₀ sch).2 n = none := by
     intro n
     induction n with
     | zero => intro _; rfl
     | succ n ih =>
       intro hn
       have hlt : n < k := hn
-      have hget : ((List.range k).map fun t => proj t (gRun kg perf (only t sch)).2).getD n [] =
-          proj n (gRun kg perf (only n sch)).2 := by
+      have hget : ((List.range k).map fun t => proj t (gRunFrom kg perf g₀ (only t sch)).2).getD n [] =
+          proj n (gRunFrom kg perf g₀ (only n sch)).2 := by
         simp [List.getD, hlt]
-      simp only [specFind, ih (Nat.le_of_succ_le hn), hget,
-        firstDiff_eq (C16_noninterference_prefix kg hs perf sch n).symm]
-  simp only [spec, specCheck, h1, h2, h3, h4, h5, key k (Nat.le_refl k), if_false, Bool.false_eq_true, Option.isNone_none]
+      have st := C16_noninterference_strict kg hs perf g₀ sch n
+      simp only [specFind, ih (Nat.le_of_succ_le hn), hget, firstDiff_eq st.2.symm, st.1, if_true]
+  simp only [specOwn, specCheckOwn, h1, h2, h3, h4, h5, key k (Nat.le_refl k), if_false, Bool.false_eq_true,
+    Option.isNone_none]
 
-/-- SPECM of the check: the observer on the model's own records, for the library's keying -/
-theorem C16_spec_holds_library (perf : Bool) (k : Nat) (hk : 0 < k) (sch : List (ThreadId × Op))
+/-- **the whole observer, for programs that share no object between threads** (decidable hypothesis on the schedule):
+    the model's concurrent run is accepted against the model's runs of each thread alone -/
+theorem C16_spec_holds_partial (kg : Keying) (hs : kg.Separates) (perf : Bool) (g₀ : GState) (k : Nat) (hk : 0 < k)
+    (sch : List (ThreadId × Op)) (hthr : ∀ p ∈ sch, p.1 < k) (hown : ∀ p ∈ sch, p.2.isShared = false) :
+    spec perf k ((List.range k).map fun t => proj t (gRunFrom kg perf g₀ (only t sch)).2) (gRunFrom kg perf g₀ sch).2 = true := by
+  have own := C16_spec_own_holds kg hs perf g₀ k hk sch hthr
+  simp only [specOwn, Option.isNone_iff_eq_none] at own
+  have key : ∀ n, n ≤ k →
+      fullFind ((List.range k).map fun t => proj t (gRunFrom kg perf g₀ (only t sch)).2) (gRunFrom kg perf g₀ sch).2 n = none := by
+    intro n
+    induction n with
+    | zero => intro _; rfl
+    | succ n ih =>
+      intro hn
+      have hlt : n < k := hn
+      have hget : ((List.range k).map fun t => proj t (gRunFrom kg perf g₀ (only t sch)).2).getD n [] =
+          proj n (gRunFrom kg perf g₀ (only n sch)).2 := by
+        simp [List.getD, hlt]
+      have ho : ∀ op ∈ opsOf n sch, op.isShared = false := by
+        intro op hop
+        simp only [opsOf, List.mem_filterMap] at hop
+        obtain ⟨p, hp, he⟩ := hop
+        by_cases hpn : p.1 = n
+        · simp [hpn] at he; exact he ▸ hown p hp
+        · simp [hpn] at he
+      have ni := (C16_noninterference kg hs perf g₀ sch n ho).1.2
+      simp only [fullFind, ih (Nat.le_of_succ_le hn), hget, ni, if_true]
+  simp only [spec, specCheck, own, key k (Nat.le_refl k), Option.isNone_none]
+
+/-- for ALL programs the model can fail the observer with its last clause only: whatever the threads do, the only
+    complaint `spec` can have about a run of the model is `interference:shared-object` -/
+theorem C16_spec_fails_only_on_shared_objects (kg : Keying) (hs : kg.Separates) (perf : Bool) (g₀ : GState) (k : Nat)
+    (hk : 0 < k) (sch : List (ThreadId × Op)) (hthr : ∀ p ∈ sch, p.1 < k) :
+    specClause perf k ((List.range k).map fun t => proj t (gRunFrom kg perf g₀ (only t sch)).2) (gRunFrom kg perf g₀ sch).2 = "ok" ∨
+    specClause perf k ((List.range k).map fun t => proj t (gRunFrom kg perf g₀ (only t sch)).2) (gRunFrom kg perf g₀ sch).2 =
+      "interference:shared-object" := by
+  have own := C16_spec_own_holds kg hs perf g₀ k hk sch hthr
+  simp only [specOwn, Option.isNone_iff_eq_none] at own
+  simp only [specClause, specCheck, own]
+  split <;> simp
+
+/-- SPECM of the check: the observer on the model's own records, for the library as written with the thread kinds and
+    start contexts of the case.  An instance of `C16_spec_own_holds` / `C16_spec_holds_partial`. -/
+theorem C16_spec_holds_library (aliens : List (ThreadId × Nat)) (hid : identsDistinct aliens = true)
+    (modes : List (ThreadId × Bool)) (perf : Bool) (k : Nat) (hk : 0 < k) (sch : List (ThreadId × Op))
     (hthr : ∀ p ∈ sch, p.1 < k) :
-    spec k ((List.range k).map fun t => aloneOn perf t (opsOf t sch)) (inter perf sch) = true :=
-  C16_spec_holds Keying.real C16_real_separates perf k hk sch hthr
+    specOwn perf k ((List.range k).map fun t => proj t (interW aliens modes perf (only t sch))) (interW aliens modes perf sch) = true ∧
+    ((∀ p ∈ sch, p.2.isShared = false) →
+      spec perf k ((List.range k).map fun t => proj t (interW aliens modes perf (only t sch))) (interW aliens modes perf sch) = true) :=
+  ⟨C16_spec_own_holds _ (cpython_separates aliens hid) perf _ k hk sch hthr,
+   C16_spec_holds_partial _ (cpython_separates aliens hid) perf _ k hk sch hthr⟩
 
-/-- both hypotheses of `C16_spec_holds` are needed: no threads / a record of a thread that is not among the `k` -/
-example : spec 0 [] (inter false []) = false := by decide
-example : spec 1 [aloneOn false 0 []] (inter false [(1, .getActive)]) = false := by decide
+/-- both hypotheses `hk`, `hthr` are needed: no threads / a record of a thread that is not among the `k` -/
+example : specOwn false 0 [] (inter false []) = false := by decide
+example : specOwn false 1 [aloneOn false 0 []] (inter false [(1, .getActive)]) = false := by decide
+/-- `hs` is needed: `C16_no_thread_in_key_counterexample`, `C16_module_state_counterexample` (and the examples below);
+    `hown` of `C16_spec_holds_partial` is needed: `C16_shared_object_counterexample`;
+    `hid` is needed: the colliding idents of `C16_alien_ident_counterexample` fail `specOwn` -/
+example : specClause false 2 [aloneW [(0, 77), (1, 77)] [] false 0 (opsOf 0 lifeClash), aloneW [(0, 77), (1, 77)] [] false 1 (opsOf 1 lifeClash)]
+    (interW [(0, 77), (1, 77)] [] false lifeClash) = "interference:deduplicate" := by decide
 
 /-! ## non-vacuity and what the observer rejects -/
 
@@ -316,7 +471,7 @@ example : proj 0 (inter true demoSchedule) =
 
 /-- the one dict really is shared in the model: after the demo both threads' entries sit in the same table, and each
     thread's view holds only its own -/
-example : (gRun Keying.real true (demoSchedule.take 4)).1.tasks = [((7, 1, 0), 0), ((7, 0, 0), 0)] ∧
+example : (gRun Keying.real true (demoSchedule.take 4)).1.tasks = [((7, 2, 0), 0), ((7, 0, 0), 0)] ∧
     (abs Keying.real 0 (gRun Keying.real true (demoSchedule.take 4)).1).dedup = [((0, 7), 0)] := by
   decide
 
@@ -325,7 +480,7 @@ example : aloneOn true 1 (opsOf 1 demoSchedule) = alone true (opsOf 1 demoSchedu
     proj 1 (inter true demoSchedule) = alone true (opsOf 1 demoSchedule) := by
   decide
 
-example : spec 2 [aloneOn true 0 (opsOf 0 demoSchedule), aloneOn true 1 (opsOf 1 demoSchedule)] (inter true demoSchedule) = true := by
+example : spec true 2 [aloneOn true 0 (opsOf 0 demoSchedule), aloneOn true 1 (opsOf 1 demoSchedule)] (inter true demoSchedule) = true := by
   decide
 
 /-- instance of the frame theorem: thread 1 starts a task, thread 0's view does not move; instance of
@@ -367,32 +522,84 @@ example : proj 0 (stratGlobal (gStep Keying.moduleState false) (fun t => if t = 
 def sharedRun (perf : Bool) (sch : List (ThreadId × Op)) : List (ThreadId × Rec) := (gRun Keying.moduleState perf sch).2
 
 /-- the observer is not trivially true: it rejects the records of such a library, naming the component -/
-example : spec 2 [aloneOn true 0 (opsOf 0 demoSchedule), aloneOn true 1 (opsOf 1 demoSchedule)] (sharedRun true demoSchedule) = false := by
+example : spec true 2 [aloneOn true 0 (opsOf 0 demoSchedule), aloneOn true 1 (opsOf 1 demoSchedule)] (sharedRun true demoSchedule) = false := by
   decide
-example : specClause 2 [aloneOn false 0 [.mkItem 1 10], aloneOn false 1 [.mkItem 1 20]]
+example : specClause false 2 [aloneOn false 0 [.mkItem 1 10], aloneOn false 1 [.mkItem 1 20]]
     (sharedRun false [(0, .mkItem 1 10), (1, .mkItem 1 20)]) = "interference:debug-batch" := by
   decide
-example : specClause 2 [aloneOn false 0 [.dedupCall 0 7], aloneOn false 1 [.dedupCall 0 7]]
+example : specClause false 2 [aloneOn false 0 [.dedupCall 0 7], aloneOn false 1 [.dedupCall 0 7]]
     (gRun Keying.noThreadInKey false dedupClash).2 = "interference:deduplicate" := by
   decide
 
 /-- the wrong observations listed by the audit (B5) are rejected: records of a thread that is not one of the `k`
     threads; `k = 0`; a missing run alone; a thread that sees a foreign task both alone and concurrently -/
-example : specClause 2 [aloneOn true 0 [.mkItem 1 10], aloneOn true 1 [.mkItem 1 20]]
+example : specClause true 2 [aloneOn true 0 [.mkItem 1 10], aloneOn true 1 [.mkItem 1 20]]
     (inter true [(0, .mkItem 1 10), (1, .mkItem 1 20)] ++ [(7, (.getActive, .foreign)), (2, (.snap, .snap 5 5 (some 3)))])
     = "record-of-unknown-thread" := by decide
-example : specClause 0 [] (sharedRun true demoSchedule) = "no-threads" := by decide
-example : specClause 3 [aloneOn true 0 [.mkItem 1 10]] (inter true [(0, .mkItem 1 10)]) = "alone-runs-missing" := by decide
-example : specClause 2 [[(.getActive, .foreign)], [(.getActive, .raised 1)]]
+example : specClause true 0 [] (sharedRun true demoSchedule) = "no-threads" := by decide
+example : specClause true 3 [aloneOn true 0 [.mkItem 1 10]] (inter true [(0, .mkItem 1 10)]) = "alone-runs-missing" := by decide
+example : specClause false 2 [[(.getActive, .foreign)], [(.getActive, .raised 1)]]
     [(0, (.getActive, .foreign)), (1, (.getActive, .raised 1))] = "observes-foreign:scheduler" := by decide
-example : specClause 2 [[(.getActive, .foreign)], []] [(0, (.getActive, .active none))] = "observes-foreign-alone:scheduler" := by decide
+example : specClause false 2 [[(.getActive, .foreign)], []] [(0, (.getActive, .active none))] = "observes-foreign-alone:scheduler" := by decide
 
-/-- a thread that touches a shared object is compared up to that operation only; one that does not is compared in full
-    even when the others do (the shape of `C16_noninterference`) -/
-example : spec 3 [aloneOn false 0 (opsOf 0 sharedClash), aloneOn false 1 (opsOf 1 sharedClash), aloneOn false 2 [.getActive]]
+/-- what the observer compares for a thread that uses shared objects (second audit, N11): ALL its other records, also
+    those after its first use of a shared object.  The wrong observations the audit lists are rejected:
+    #7 a thread whose first operation is `svGet` then sees a foreign-looking active task and another thread's item in
+    its batch; #8 the thread performs different operations after a shared one; #9 the value read from the shared
+    object itself differs from the run alone - this is the property as stated failing, reported under its own clause -/
+example : specClause false 2 [aloneOn false 0 [.svGet, .getActive, .mkItem 1 10], aloneOn false 1 [.newTask]]
+    [(0, (.svGet, .nat 0)), (1, (.newTask, .task 0 0)), (0, (.getActive, .active (some 3))), (0, (.mkItem 1 10, .item 0 5 0))]
+    = "interference:scheduler" := by decide
+example : specClause false 2 [aloneOn false 0 [.svGet, .getActive, .mkItem 1 10], aloneOn false 1 [.newTask]]
+    [(0, (.svGet, .nat 0)), (1, (.newTask, .task 0 0)), (0, (.getActive, .active none)), (0, (.mkItem 1 10, .item 0 5 0))]
+    = "interference:debug-batch" := by decide
+example : specClause false 1 [aloneOn false 0 [.svGet, .getActive]] [(0, (.svGet, .nat 0)), (0, (.profFlush, .stats [.user 3]))]
+    = "interference:profiler" := by decide
+example : specClause false 1 [aloneOn false 0 [.svGet, .svGet]] [(0, (.svGet, .nat 0)), (0, (.svSet 4, .unit))]
+    = "interference:operations" := by decide
+example : specClause false 1 [aloneOn false 0 [.svGet]] [(0, (.svGet, .nat 5))] = "interference:shared-object" := by decide
+/-- a thread that did more, or less, concurrently than alone -/
+example : specClause false 1 [aloneOn false 0 [.svGet]] [(0, (.svGet, .nat 0)), (0, (.svGet, .nat 0))] = "interference:operations" := by decide
+example : specClause false 1 [aloneOn false 0 [.getActive]] [(0, (.getActive, .active none)), (0, (.getActive, .active none))]
+    = "interference:scheduler" := by decide
+example : specClause false 1 [aloneOn false 0 [.getActive, .svGet]] [(0, (.getActive, .active none))] = "interference:operations" := by decide
+/-- under COLLECT_PERF_STATS the records after the first cached call are compared by the last clause only -/
+example : specClause true 2 [aloneOn true 0 (opsOf 0 cutClash), aloneOn true 1 (opsOf 1 cutClash)] (inter true cutClash)
+    = "interference:shared-object" := by decide
+example : specClause true 1 [aloneOn true 0 [.svGet, .newTask, .lruCall 1, .newTask]]
+    [(0, (.svGet, .nat 0)), (0, (.newTask, .task 0 7)), (0, (.lruCall 1, .cache false 11)), (0, (.newTask, .task 1 4))]
+    = "interference:task" := by decide
+/-- the threads of `sharedClash` pass every clause but the last; a thread that shares nothing is compared in full and
+    passes all of them even when the others share (the shape of `C16_noninterference`) -/
+example : specOwn false 3 [aloneOn false 0 (opsOf 0 sharedClash), aloneOn false 1 (opsOf 1 sharedClash), aloneOn false 2 [.getActive]]
     (inter false (sharedClash ++ [(2, .getActive)])) = true := by decide
-example : specClause 2 [aloneOn false 0 [.getActive, .svGet], aloneOn false 1 []]
+example : spec false 2 [aloneOn false 0 [.svEnter 5, .getActive, .svExit], aloneOn false 1 [.getActive, .mkItem 1 9]]
+    (inter false [(0, .svEnter 5), (1, .getActive), (0, .getActive), (1, .mkItem 1 9), (0, .svExit)]) = true := by decide
+example : specClause false 2 [aloneOn false 0 [.getActive, .svGet], aloneOn false 1 []]
     [(0, (.getActive, .active (some 3))), (0, (.svGet, .nat 0))] = "interference:scheduler" := by decide
+/-- `strictPart` keeps strictly more than the old prefix -/
+example : (ownPrefix (proj 1 (inter false sharedClash))).length = 0 ∧
+    (strictPart false (proj 0 (inter false (sharedClash ++ [(0, .getActive)])))).length = 1 := by decide
+
+/-- `hsame` / `hcount` of `C16_adaptive_schedule_independent` are needed: another number of turns, another computation -/
+example : proj 0 (stratGlobal (gStep Keying.real false) (fun _ => flooder) [0, 0] GState.init []).2 ≠
+    proj 0 (stratGlobal (gStep Keying.real false) (fun _ => flooder) [0] GState.init []).2 := by decide
+example : proj 0 (stratGlobal (gStep Keying.real false) (fun _ => flooder) [0] GState.init []).2 ≠
+    proj 0 (stratGlobal (gStep Keying.real false) (fun _ => adaptive) [0] GState.init []).2 := by decide
+/-- `Strategy.Own` is satisfiable (the adaptive theorem applies to the example) and needed (a computation that reads
+    the scoped value another thread overrides takes another path) -/
+example : Strategy.Own adaptive := by
+  intro h op e
+  unfold adaptive at e
+  split at e <;> (try split at e) <;> simp at e <;> (try (subst e; rfl))
+def svReader : Strategy := fun h =>
+  match h with
+  | [] => some .svGet
+  | [(_, .nat v)] => if v = 0 then some .getActive else some .snap
+  | _ => none
+example : proj 1 (stratGlobal (gStep Keying.real false) (fun t => if t = 1 then svReader else fun h => if h.length < 1 then some (.svSet 4) else none)
+      [0, 1, 1] GState.init []).2 = [(.svGet, .nat 4), (.snap, .snap 0 0 none)] ∧
+    (stratAlone (localStep false) svReader 2 Local.init []).2 = [(.svGet, .nat 0), (.getActive, .active none)] := by decide
 
 /-- the inventory comparison accepts exactly the carriers it knows and flags a thread-local turned global, a carrier
     nobody probes and a new closure cache -/
